@@ -13,7 +13,7 @@
    programs, the pointer-level model — whose wrap branch is the generated one — predicts every
    trace line of the real list). *)
 From Coq Require Import List Arith NArith ZArith Bool.
-From EV Require Import CLModel CLSpec CLHeap CLOps CLRefine CLSim CLMain CLWrap.
+From EV Require Import CLModel CLSpec CLHeap CLOps CLRefine CLSim CLMain CLWrap CLWrapSim.
 From EV.gen Require GenCL.
 Import ListNotations.
 
@@ -62,6 +62,72 @@ Theorem C19_invocations_without_wrap_refine_snapshot_spec :
     exists sst', s_run behav fuel sst prog = Some sst' /\ strace sst' = trace st' /\ R W st' sst'.
 Proof. exact cl_run_refines_from. Qed.
 Print Assumptions C19_invocations_without_wrap_refine_snapshot_spec.
+
+(* THE WRAPPING STEP RE-ESTABLISHES THE REFINEMENT RELATION (CLWrapSim.v).  When an addition — append, prepend, insert before a
+   live / removed / empty handle — takes the overflow branch of getNextCounter (ghost flag `wrapped` goes from false to true),
+   the state after it is related by R to the specification state after the same addition; R does not mention the flag.
+   This holds whether or not invocations are in progress; what is lost for invocations IN PROGRESS is their frame (they may
+   additionally call callbacks added during them, as the property says) — the relation of everything else is intact. *)
+Theorem C19_append_across_the_wrap_reestablishes_R :
+  forall W st sst l c h st',
+    (1 < W)%N -> R W st sst -> wrapped st = false -> do_append W st l c h = Some st' -> wrapped st' = true ->
+    exists sst', s_add sst l c h (fun n es => es ++ [n]) = Some sst' /\ R W (clear_wrapped st') sst'.
+Proof. exact append_wrap_reestablishes_R. Qed.
+Print Assumptions C19_append_across_the_wrap_reestablishes_R.
+
+Theorem C19_prepend_across_the_wrap_reestablishes_R :
+  forall W st sst l c h st',
+    (1 < W)%N -> R W st sst -> wrapped st = false -> do_prepend W st l c h = Some st' -> wrapped st' = true ->
+    exists sst', s_add sst l c h (fun n es => n :: es) = Some sst' /\ R W (clear_wrapped st') sst'.
+Proof. exact prepend_wrap_reestablishes_R. Qed.
+Print Assumptions C19_prepend_across_the_wrap_reestablishes_R.
+
+Theorem C19_insert_across_the_wrap_reestablishes_R :
+  forall W behav st sst l c hb h st',
+    (1 < W)%N -> R W st sst -> wrapped st = false ->
+    do_insert W GenCL.remove_checks_removed GenCL.insert_checks_removed GenCL.owns_checks_removed st l c hb h = Some st' -> wrapped st' = true ->
+    exists sst', s_step behav (fun _ _ => None) sst (Insert l c hb h) = Some sst' /\ R W (clear_wrapped st') sst'.
+Proof. exact insert_wrap_reestablishes_R. Qed.
+Print Assumptions C19_insert_across_the_wrap_reestablishes_R.
+
+(* ... and therefore: a history without wrap (h1), then an append that wraps, then ANY re-entrant program without a further
+   wrap (h2), run from the state after the wrap with the ghost flag cleared (the interpreter only ever writes that flag):
+   the whole behaves as the snapshot specification — every callback then in the list is invoked exactly once by every later
+   invocation, removed ones never, callbacks added during an invocation are skipped by it, traces equal. *)
+Theorem C19_history_across_a_top_level_wrap_refines_the_spec :
+  forall W behav fuel nl h1 l c h h2 s1 s2 s3,
+    (1 < W)%N -> core_behav behav -> core_prog h1 -> core_prog h2 ->
+    run W GenCL.remove_checks_removed GenCL.insert_checks_removed GenCL.owns_checks_removed behav fuel (init nl) h1 = Some s1 -> wrapped s1 = false ->
+    do_append W s1 l c h = Some s2 -> wrapped s2 = true ->
+    run W GenCL.remove_checks_removed GenCL.insert_checks_removed GenCL.owns_checks_removed behav fuel (clear_wrapped s2) h2 = Some s3 -> wrapped s3 = false ->
+    exists ss1 ss2 ss3,
+      s_run behav fuel (s_init nl) h1 = Some ss1 /\ s_add ss1 l c h (fun n es => es ++ [n]) = Some ss2 /\
+      s_run behav fuel ss2 h2 = Some ss3 /\ strace ss3 = trace s3 /\ R W s3 ss3.
+Proof.
+  intros W behav fuel nl h1 l c h h2 s1 s2 s3 HW Hb Hp1 Hp2 R1 W1 A W2 R3 W3.
+  assert (HW0 : (0 < W)%N) by (apply N.lt_trans with 1%N; [reflexivity|exact HW]).
+  destruct (cl_run_refines W behav fuel nl h1 s1 HW0 Hb Hp1 R1 W1) as (ss1 & X1 & _ & RR1).
+  destruct (append_wrap_reestablishes_R W s1 ss1 l c h s2 HW RR1 W1 A W2) as (ss2 & X2 & RR2).
+  destruct (cl_run_refines_from W behav fuel (clear_wrapped s2) ss2 h2 s3 Hb Hp2 RR2 R3 W3) as (ss3 & X3 & T3 & RR3).
+  exists ss1, ss2, ss3. auto.
+Qed.
+Print Assumptions C19_history_across_a_top_level_wrap_refines_the_spec.
+
+(* non-vacuity of the last theorem: two callbacks, the counter at its maximum, the append that wraps, then an invocation,
+   a removal, another addition and another invocation *)
+Definition c19_s1 := run (2 ^ 32)%N GenCL.remove_checks_removed GenCL.insert_checks_removed GenCL.owns_checks_removed (fun _ _ => []) 5 (init 1)
+                          [Append 0 1 1; Append 0 2 2; SetCur 0 0%N; Invoke 0 5%Z].
+Definition c19_s2 := match c19_s1 with Some s1 => do_append (2 ^ 32)%N s1 0 3 3 | None => None end.
+Definition c19_s3 := match c19_s2 with
+                     | Some s2 => run (2 ^ 32)%N GenCL.remove_checks_removed GenCL.insert_checks_removed GenCL.owns_checks_removed (fun _ _ => []) 5
+                                      (clear_wrapped s2) [Invoke 0 6%Z; Remove 0 1; Append 0 4 4; Invoke 0 7%Z]
+                     | None => None
+                     end.
+Example C19_across_the_wrap_example :
+  option_map wrapped c19_s1 = Some false /\ option_map wrapped c19_s2 = Some true /\
+  option_map (fun s => (wrapped s, rev (trace s))) c19_s3 =
+    Some (false, [ECall 1 5%Z; ECall 2 5%Z; ECall 1 6%Z; ECall 2 6%Z; ECall 3 6%Z; ERet true; ECall 2 7%Z; ECall 3 7%Z; ECall 4 7%Z]).
+Proof. vm_compute. repeat split; reflexivity. Qed.
 
 (* non-vacuity: the counter is placed at its maximum, the next addition takes the wrap branch, and
    the invocations before and after it call all callbacks *)
